@@ -582,10 +582,12 @@ pub fn check_answer(case: &Case, ro: &ROffer, ans_text: &str, phase: Phase, fail
             }
             if !os.extmaps.iter().any(|(oi, ou, _)| *oi == id && ou == uri) {
                 let substring = os.extmaps.iter().any(|(oi, ou, _)| *oi == id && ou != uri && ou.contains(uri));
-                let sig = if substring {
-                    "answer-extmap-not-offered(uri-substring)"
-                } else if o.mids == MidScheme::Absent && i > 0 {
+                // F4 first: in a mid-less offer every later section echoes the first section's
+                // extmaps, whose URI may by chance be a prefix of the one offered here.
+                let sig = if o.mids == MidScheme::Absent && i > 0 {
                     "answer-extmap-not-offered(midless-offer, section>0)"
+                } else if substring {
+                    "answer-extmap-not-offered(uri-substring)"
                 } else {
                     "answer-extmap-not-offered"
                 };
